@@ -21,12 +21,19 @@ class SV:
         object.__setattr__(self, "_ctx", ctx)
         object.__setattr__(self, "_s", sobj)
 
+    def _cur(self):
+        """The object as it is in the current state: merging the two branches of an `if` replaces the
+        top-level objects of the memory by merged copies (same id), so look the id up again."""
+        s = self._s
+        o = self._ctx.st.mem.objs.get(s.id) if isinstance(s.id, int) and s.id > 0 else None
+        return o if isinstance(o, StructObj) else s
+
     def __getattr__(self, name):
-        v = self._ctx.eng._lazy_field(self._s, name, self._ctx.st)
+        v = self._ctx.eng._lazy_field(self._cur(), name, self._ctx.st)
         return self._ctx.wrap(v)
 
     def __setattr__(self, name, value):
-        self._s.fields[name] = self._ctx.unwrap(value)
+        self._cur().fields[name] = self._ctx.unwrap(value)
 
     def __getitem__(self, name):
         return getattr(self, name)
@@ -263,7 +270,47 @@ def term_text(t, limit=600):
     return s if len(s) <= limit else s[:limit] + " ..."
 
 
+def _native_isolated(eng, ob, repo):
+    """Run the native replay in a forked child: a counter-model may drive the real code into a crash
+    (NULL back-pointer, wild index); that must not take the discharging process down with it."""
+    from . import native as nat
+    r, w = os.pipe()
+    pid = os.fork()
+    if pid == 0:
+        os.close(r)
+        try:
+            try:
+                confirmed, info = nat.replay_in_worker(eng, ob, repo)
+                out = {"confirmed": confirmed, "info": info}
+            except Exception as ex:
+                out = {"confirmed": None, "info": {"error": "%s: %s" % (type(ex).__name__, ex),
+                                                   "trace": traceback.format_exc()[-1200:]}}
+            data = json.dumps(out, default=str).encode()
+            off = 0
+            while off < len(data):
+                off += os.write(w, data[off:off + 65536])
+        finally:
+            os._exit(0)
+    os.close(w)
+    chunks = []
+    while True:
+        c = os.read(r, 65536)
+        if not c:
+            break
+        chunks.append(c)
+    os.close(r)
+    _pid, status = os.waitpid(pid, 0)
+    if not chunks:
+        return {"confirmed": None, "info": {"error": "native replay process died (wait status %d): the counter-model drives "
+                                                     "the native code into a crash or the replay harness cannot build the input" % status}}
+    return json.loads(b"".join(chunks).decode())
+
+
 def _discharge_one(eng, ob, budget, repo):
+    if ob.kind == "ground" and ob.backend == "ground" and ob.verdict in ("proved", "refuted"):
+        # decided by exact evaluation in the pack: keep verdict and the detail (names the offending member/writer)
+        return {"verdict": ob.verdict, "backend": ob.backend, "time": ob.time, "detail": ob.detail, "model": ob.model,
+                "native": None}
     backends.discharge(ob, budget)
     native = None
     if ob.verdict == "refuted" and ob.meta.get("z3model") is not None:
@@ -274,9 +321,7 @@ def _discharge_one(eng, ob, budget, repo):
             rec["post_mem"] = ctx.st.mem
             ob.meta["callrec"] = rec
             try:
-                from . import native as nat
-                confirmed, info = nat.replay_in_worker(eng, ob, repo)
-                native = {"confirmed": confirmed, "info": info}
+                native = _native_isolated(eng, ob, repo)
             except Exception as ex:
                 native = {"confirmed": None, "info": {"error": "%s: %s" % (type(ex).__name__, ex),
                                                       "trace": traceback.format_exc()[-1200:]}}
